@@ -231,7 +231,7 @@ class Unsigned(BitVector):
         elif isinstance(lhs, (int, Integer)):
             result_width = 2 * self.width
             rhs = self.to_int()
-            lhs = int(rhs)
+            lhs = int(lhs)
         else:
             return NotImplemented
 
